@@ -9,6 +9,11 @@ int w_type_size(int fnull, int snull, unsigned long fs, unsigned long ss, int fc
 int w_access(int fmem, int smem, int fa, int sa);
 int w_dm_offset(int fmem, int smem, int fvar, int svar, unsigned long fo, unsigned long so);
 int w_dm_added_removed(int null_diff, int decl_only, unsigned long nins, unsigned long ndel, int i0s, int i1s, int d0s, int d1s);
+int w_has_type_size(int null_diff, int kind, int fnull, int snull, unsigned long fs, unsigned long ss, int fcls, int fdo, int scls, int sdo);
+int w_enum_ins(int null_diff, int kind, unsigned long ni, unsigned long nd, unsigned long nc);
+int w_enum_rem(int null_diff, int kind, unsigned long ni, unsigned long nd, unsigned long nc);
+int w_harmful_enum(int null_diff, int kind, unsigned long ni, unsigned long nd, unsigned long nc, unsigned long fs, unsigned long ss);
+int w_static_dm(int null_diff, int decl_only, unsigned long nins, unsigned long ndel, int i0s, int i1s, int d0s, int d1s);
 #define POST(c) __CPROVER_assert(c, "postcondition: " #c)
 void h_parms(void)
 {
@@ -59,4 +64,53 @@ void h_dm_added_removed(void)
   int nonstatic = (in_ni >= 1 && !s[0]) || (in_ni >= 2 && !s[1]) || (in_nd >= 1 && !s[2]) || (in_nd >= 2 && !s[3]);
   POST((r != 0) == (!in_null && !in_do && nonstatic));
   CANARY_h_dm_added_removed;
+}
+/* has_type_size_change: the size change of a type is seen on the node itself, and through a function
+   parameter node on the parameter's type diff (never nil: asserted by fn_parm_diff's constructor). */
+void h_has_type_size(void)
+{
+  int in_null = nondet_int() != 0, in_kind = nondet_int(), a[6]; for (int i = 0; i < 6; ++i) a[i] = nondet_int() != 0;
+  unsigned long in_fs = nondet_ulong(), in_ss = nondet_ulong();
+  __CPROVER_assume(in_kind == 0 || in_kind == 4 || in_kind == 5);
+  int r = w_has_type_size(in_null, in_kind, a[0], a[1], in_fs, in_ss, a[2], a[3], a[4], a[5]);
+  int decl_only = (a[2] && a[3]) || (a[4] && a[5]);
+  POST((r != 0) == (!in_null && !a[0] && !a[1] && in_fs != 0 && in_ss != 0 && !decl_only && in_fs != in_ss));
+  CANARY_h_has_type_size;
+}
+void h_enum_ins(void)
+{
+  int in_null = nondet_int() != 0, in_kind = nondet_int(); unsigned long ni = nondet_ulong(), nd = nondet_ulong(), nc = nondet_ulong();
+  __CPROVER_assume(in_kind >= 0 && in_kind <= 5);
+  int r = w_enum_ins(in_null, in_kind, ni, nd, nc);
+  POST((r != 0) == (!in_null && in_kind == 5 && ni > 0));
+  CANARY_h_enum_ins;
+}
+void h_enum_rem(void)
+{
+  int in_null = nondet_int() != 0, in_kind = nondet_int(); unsigned long ni = nondet_ulong(), nd = nondet_ulong(), nc = nondet_ulong();
+  __CPROVER_assume(in_kind >= 0 && in_kind <= 5);
+  int r = w_enum_rem(in_null, in_kind, ni, nd, nc);
+  POST((r != 0) == (!in_null && in_kind == 5 && (nd > 0 || nc > 0)));      /* removal OR value change of an enumerator */
+  CANARY_h_enum_rem;
+}
+/* C05: removing an enumerator, changing its value, or changing the size of the enum is harmful;
+   an insertion alone is not (that one is the harmless category of C07). */
+void h_harmful_enum(void)
+{
+  int in_null = nondet_int() != 0, in_kind = nondet_int(); unsigned long ni = nondet_ulong(), nd = nondet_ulong(), nc = nondet_ulong();
+  unsigned long in_fs = nondet_ulong(), in_ss = nondet_ulong();
+  __CPROVER_assume(in_kind >= 0 && in_kind <= 5);
+  int r = w_harmful_enum(in_null, in_kind, ni, nd, nc, in_fs, in_ss);
+  int size_changed = in_fs != 0 && in_ss != 0 && in_fs != in_ss;
+  POST((r != 0) == (!in_null && in_kind == 5 && (nd > 0 || nc > 0 || size_changed)));
+  CANARY_h_harmful_enum;
+}
+void h_static_dm(void)
+{
+  int in_null = nondet_int() != 0, in_do = nondet_int() != 0, s[4]; for (int i = 0; i < 4; ++i) s[i] = nondet_int() != 0;
+  unsigned long in_ni = nondet_ulong(), in_nd = nondet_ulong(); __CPROVER_assume(in_ni <= 2 && in_nd <= 2);
+  int r = w_static_dm(in_null, in_do, in_ni, in_nd, s[0], s[1], s[2], s[3]);
+  int stat = (in_ni >= 1 && s[0]) || (in_ni >= 2 && s[1]) || (in_nd >= 1 && s[2]) || (in_nd >= 2 && s[3]);
+  POST((r != 0) == (!in_null && !in_do && stat));
+  CANARY_h_static_dm;
 }
